@@ -33,7 +33,7 @@ func init() {
 	core.Register(&core.Property{
 		ID:    "C13",
 		Level: "model_checking",
-		Rule: "universe = 14 base patches (expression, statement with context elisions, function declaration with elided parameters/body, imports incl. metavariable-named, two dependent changes, composite literal with elisions, for-header elision, repeated metavariable, pure addition / pure deletion between context elisions, identifier metavariables) x every single application and every pair (thorough: every triple for the short bases) of each layout transformation at every position: '#' line at each gap, blank line at each gap, naming the change, renaming each metavariable to each of 5 names that also occur in the target files, regrouping / ';'-joining / reordering metavariable declarations, re-wrapping at each comma, re-indenting, context line <-> identical -/+ pair x 4 target files. " +
+		Rule: "universe = 21 base patches (two changes of which the later has elisions after unequal numbers of -/+ lines, an interface method with an unnamed variadic parameter, expression, statement with context elisions, function declaration with elided parameters/body, imports incl. metavariable-named, two dependent changes, composite literal with elisions, for-header elision, repeated metavariable, pure addition / pure deletion between context elisions, identifier metavariables) x every single application and every pair (thorough: every triple for the short bases) of each layout transformation at every position: '#' line at each gap, blank line at each gap, naming the change and giving all changes the same name, a blank after the dots of a variadic parameter, renaming each metavariable to each of 5 names that also occur in the target files, regrouping / ';'-joining / reordering metavariable declarations, re-wrapping at each comma, re-indenting, context line <-> identical -/+ pair x 4 target files. " +
 			"Differential oracle: the variant's result is canonically identical to the base patch's (and fails iff it fails); descriptions on stderr are exactly the '#' lines directly above the header. non-trivial = the base patch rewrites the file",
 		Assumptions: []string{"a transformation is only generated where it is meaning-preserving by the property's wording (metavariables that name an import are not renamed; new names do not occur literally in the pattern)"},
 		Bounds: func(tier string) map[string]any {
@@ -134,6 +134,13 @@ func c13Bases() []c13Base {
 		{id: "array-ellipsis", renamable: []string{"x"},
 			lines: cat(pl("header", "@@"), pl("meta", "var x expression"), pl("metaend", "@@"), pl("body", "-v := [...]int{x, 2}", "+v := [...]int{2, x}", " use(v, ...)")),
 			files: []string{fnBody("v := [...]int{a, 2}", "use(v, 1)"), fnBody("v := [...]int{n, 2}", "use(v)"), fnBody("v := []int{a, 2}", "use(v, 1)"), fnBody("v := [...]int{y, 2}", "mid()", "use(v, a, n)")}},
+		{id: "two-changes-late-elisions", renamable: nil,
+			lines: cat(pl("header", "@@"), pl("metaend", "@@"), pl("body", "-oldName()", "+newName()", ""),
+				pl("header", "@@"), pl("metaend", "@@"), pl("body", "+trace(\"enter\")", "+trace(\"args\")", " first(...)", " second(...)")),
+			files: []string{fnBody("first(1, 2)", "second(a)", "oldName()"), fnBody("first()", "second(y, n)"), fnBody("first(1)", "mid()", "second(2)", "oldName()"), fnBody("oldName()", "first(a, y)", "second(first(n))")}},
+		{id: "interface-variadic", renamable: nil,
+			lines: cat(pl("header", "@@"), pl("metaend", "@@"), pl("body", " type Store interface {", "-  Put(...string)", "+  PutAll(...string)", "   Get(k string, opts ...Option) string", " }")),
+			files: []string{"package p\n\ntype Store interface {\n\tPut(...string)\n\tGet(k string, opts ...Option) string\n}\n", "package p\n\ntype Store interface {\n\tPut(string)\n\tGet(k string, opts ...Option) string\n}\n", "package p\n\ntype Other interface {\n\tPut(...string)\n\tGet(k string, opts ...Option) string\n}\n", "package p\n\nfunc f() {\n\ttype Store interface {\n\t\tPut(...string)\n\t\tGet(k string, opts ...Option) string\n\t}\n}\n"}},
 		{id: "value-decl", renamable: []string{"x"},
 			lines: cat(pl("desc", "# value"), pl("header", "@@"), pl("meta", "var x expression"), pl("metaend", "@@"), pl("body", "-var v = foo(x)", "+var v = bar(x)")),
 			files: []string{"package p\n\nvar v = foo(1)\n", "package p\n\nfunc f() {\n\tvar v = foo(y)\n\t_ = v\n}\n", "package p\n\nvar w = foo(1)\n", "package p\n\nvar (\n\tv = foo(1)\n)\n"}},
@@ -143,6 +150,18 @@ func c13Bases() []c13Base {
 type c13Variant struct {
 	step  string
 	lines []pline
+}
+
+var variadicRe = regexp.MustCompile(`\.\.\.([A-Za-z_\[\*])`)
+
+func countRegion(lines []pline, region string) int {
+	n := 0
+	for _, l := range lines {
+		if l.Region == region {
+			n++
+		}
+	}
+	return n
 }
 
 var identRe = regexp.MustCompile(`[A-Za-z_][A-Za-z0-9_]*`)
@@ -206,6 +225,16 @@ func c13Transforms(b c13Base, lines []pline) []c13Variant {
 			n[i] = pline{"@@", "header"}
 			out = append(out, c13Variant{fmt.Sprintf("unname@%d", i), n})
 		}
+	}
+	// T3b: every change of the patch under one and the same name (names are labels, nothing requires them to differ)
+	if nh := countRegion(lines, "header"); nh >= 2 {
+		n := append([]pline{}, lines...)
+		for i, l := range n {
+			if l.Region == "header" {
+				n[i] = pline{"@ same @", "header"}
+			}
+		}
+		out = append(out, c13Variant{"name-all-same", n})
 	}
 	// T4: rename metavariables
 	used := map[string]bool{}
@@ -327,6 +356,17 @@ func c13Transforms(b c13Base, lines []pline) []c13Variant {
 				n[i] = pline{t, "body"}
 				out = append(out, c13Variant{fmt.Sprintf("respace-ellipsis%d@%d", k, i), n})
 			}
+		}
+	}
+	// T10b: a blank between the dots of a variadic parameter / argument and what follows (...T -> ... T)
+	for i, l := range lines {
+		if l.Region != "body" || len(l.Text) < 2 {
+			continue
+		}
+		if t := l.Text[:1] + variadicRe.ReplaceAllString(l.Text[1:], "... $1"); t != l.Text {
+			n := append([]pline{}, lines...)
+			n[i] = pline{t, "body"}
+			out = append(out, c13Variant{fmt.Sprintf("respace-variadic@%d", i), n})
 		}
 	}
 	// T9: trailing blanks / tabs after the code of a body line (each line, and all at once)
